@@ -12,4 +12,5 @@ CONSTRAINT Bound
 INVARIANT Inv_C01
 INVARIANT Inv_C10
 INVARIANT Inv_C05
+INVARIANT Inv_C15
 CHECK_DEADLOCK FALSE
